@@ -37,6 +37,25 @@ func runC01(env *lib.Env, rep *lib.Report) {
 	// in between (a root change of an old table then touches a clean page-table leaf)
 	cfgs = append(cfgs, histCfg{Name: "real/catalog-split/c0+c7+ticks", Opt: real, Seed: "catalog-split",
 		Alpha: alphaOpt{Tables: []string{"c0", "c7"}, Inserts: []int{1, 9}, Updates: true, Deletes: true, FewDeletes: true}, Depth: d, TickChoice: true, Reselect: true, FinalReopen: true})
+	// three-level trees at reduced capacity, every alignment of the right-most leaf (9..30 seed rows): single-row
+	// inserts and deletions of the newest row, so that leaves split with a tombstone behind a live row in the half
+	// that moves (leaf capacity >= 5) while the root stays as it is (the level below absorbs the split); the restart
+	// at the end replays the whole log against those pages
+	for n := 9; n <= 30; n++ {
+		name := fmt.Sprintf("t1x%d-single-rows", n)
+		rows := n
+		histSeeds[name] = func(w *world) *world {
+			ok := w.do(mkCreate("t1", worldSchemas["t1"]))
+			for i := 0; ok && i < rows; i++ {
+				ok = w.do(mkInsert(w.model, "t1", 1, false))
+			}
+			return okw(w, ok)
+		}
+		for _, caps := range [][2]int{{5, 3}, {6, 4}, {5, 8}} {
+			cfgs = append(cfgs, histCfg{Name: fmt.Sprintf("leaf%d-int%d/%s", caps[0], caps[1], name), Opt: worldOpt{Leaf: caps[0], Internal: caps[1]}, Seed: name,
+				Alpha: alphaOpt{Tables: []string{"t1"}, Inserts: []int{1, 2}, Deletes: true}, Depth: d, FinalReopen: true})
+		}
+	}
 	// deeper, with a two-table alphabet, from the empty database
 	cfgs = append(cfgs, histCfg{Name: "real/empty/deep", Opt: real, Seed: "empty", Alpha: twoAlpha, Depth: d + 1, FinalReopen: true})
 	rep.Bounds["depth"] = d
